@@ -360,6 +360,11 @@ pub fn verif_parse_go_command(commands: &[&str]) -> GameTime {
     parse_go_command(commands)
 }
 
+#[cfg(feature = "verif")]
+pub fn verif_send_best_move_to_gui(board: &BoardState) {
+    send_best_move_to_gui(board)
+}
+
 pub fn read_from_gui() -> String {
     let stdin = io::stdin();
     let mut buffer = String::new();
